@@ -38,6 +38,25 @@ namespace Props.C02
 
 theorem gen_invalidations : (Gen.mkdirInvalidates && Gen.renameInvalidatesPrefix && Gen.rmdirUsesLstat) = true := by decide
 
+/-- every cache invalidation call of the modifying operations, in source order, as regenerated from operations.go
+    and the handlers on this run: these are the invalidations the model's operations perform (`invalidateForNew`,
+    `removeOp`, `renameOp`, `setAttrOp`, `writeOp`, `createStep1`, `procMkdir`, `procRmdir`, `setattrSize`), which
+    the `CInv` theorems below are about -/
+theorem gen_invalidation_sites : Gen.invalidationSites =
+    [("CreateWithContext", ["attrCache.Invalidate(dir.path)", "attrCache.InvalidateNegativeInDir(dir.path)", "attrCache.Invalidate(path)", "dirCache.Invalidate(dir.path)"]),
+     ("RemoveWithContext", ["attrCache.Invalidate(path)", "attrCache.Invalidate(dir.path)", "dirCache.Invalidate(dir.path)"]),
+     ("RenameWithContext", ["attrCache.InvalidatePrefix(oldPath)", "attrCache.InvalidatePrefix(newPath)", "attrCache.Invalidate(oldDir.path)", "attrCache.Invalidate(newDir.path)", "attrCache.InvalidateNegativeInDir(oldDir.path)", "attrCache.InvalidateNegativeInDir(newDir.path)", "dirCache.Invalidate(oldDir.path)", "dirCache.Invalidate(newDir.path)", "dirCache.InvalidatePrefix(oldPath)", "dirCache.InvalidatePrefix(newPath)"]),
+     ("SetAttr", ["attrCache.Invalidate(node.path)"]),
+     ("Symlink", ["attrCache.Invalidate(dir.path)", "attrCache.InvalidateNegativeInDir(dir.path)", "attrCache.Invalidate(path)", "dirCache.Invalidate(dir.path)"]),
+     ("WriteWithContext", ["attrCache.Invalidate(node.path)"]),
+     ("handleCreate", ["attrCache.Invalidate(lookupPath)"]),
+     ("handleMkdir", ["attrCache.Invalidate(node.path)", "attrCache.InvalidateNegativeInDir(node.path)", "attrCache.Invalidate(dirPath)", "dirCache.Invalidate(node.path)"]),
+     ("handleRmdir", ["attrCache.Invalidate(targetPath)", "attrCache.Invalidate(node.path)", "dirCache.Invalidate(node.path)", "dirCache.Invalidate(targetPath)"]),
+     ("handleSetattr", ["attrCache.Invalidate(node.path)"])] := by decide
+
+/-- WRITE refuses a symbolic link's handle before the backend is touched (the model's `pre.kind = .link` test) -/
+theorem gen_write_refuses_symlink : Gen.writeRefusesSymlink = true := by decide
+
 /-- With a coherent attribute cache, LOOKUP answers exactly as the backend would: success only for a path that
     exists, with its true type, size, mode and fileid; failure only for a path whose lstat fails. -/
 theorem lookup_transparent {s s' : St} {now : Nat} {p : Bytes} (hc : AcCoherent s) :
